@@ -324,7 +324,8 @@ class Producers:
         if "_cap" in self.memo:
             return self.memo["_cap"]
         ok = False
-        fn = self.S.fn("CommandAnalyzer", "extract_type_names_recursive")
+        from c07 import find_harvester
+        fn = find_harvester(self.S)
         if fn is not None:
             for e in walk_block(fn.body):
                 if e.get("k") == "if" and any(x.get("k") == "mcall" and x["method"] == "insert" for x in walk_block(e["then"])):
